@@ -1,0 +1,106 @@
+//go:build verif
+// +build verif
+
+package keystore
+
+// Read-only accessors for the verification harness (/verif, properties C03/C05): copies of the
+// volatile unlock state of every managed keystore. No logic of their own.
+
+// VerifSecInfo is a snapshot (copies, never aliases) of the volatile secret-bearing state of one
+// AddrManager.
+type VerifSecInfo struct {
+	Name               string
+	Unlocked           bool
+	HashedPrivPass     []byte // copy of hashedPrivPassphrase (64 bytes; all zero when locked)
+	MasterPrivKey      []byte // copy of masterKeyPriv.Key (32 bytes; all zero when zeroed)
+	MasterPrivDigest   []byte // copy of masterKeyPriv.Parameters.Digest
+	MasterPubKey       []byte // copy of masterKeyPub.Key
+	CryptoKeyPriv      []byte // copy of cryptoKeyPriv bytes (all zero when locked)
+	CryptoKeyPub       []byte // copy of cryptoKeyPub bytes
+	HasAcctKeyPriv     bool
+	HasExternalBranch  bool
+	HasInternalBranch  bool
+	AddrsWithPrivKey   []string // standard addresses whose private key is cached
+	AddrPrivKeys       [][]byte // the cached private scalars (same order)
+	NextExternalIndex  uint32
+	NextInternalIndex  uint32
+	AddressesByIndex   map[uint32]string
+	AddressBranchIndex map[string][2]uint32
+}
+
+func (a *AddrManager) verifSecInfo() VerifSecInfo {
+	a.mu.Lock()
+	defer a.mu.Unlock()
+	cp := func(b []byte) []byte { return append([]byte{}, b...) }
+	info := VerifSecInfo{
+		Name:               a.keystoreName,
+		Unlocked:           a.unlocked,
+		HashedPrivPass:     cp(a.hashedPrivPassphrase[:]),
+		HasAcctKeyPriv:     a.acctInfo != nil && a.acctInfo.acctKeyPriv != nil,
+		HasExternalBranch:  a.branchInfo != nil && a.branchInfo.externalBranchPriv != nil,
+		HasInternalBranch:  a.branchInfo != nil && a.branchInfo.internalBranchPriv != nil,
+		AddressesByIndex:   map[uint32]string{},
+		AddressBranchIndex: map[string][2]uint32{},
+	}
+	if a.masterKeyPriv != nil && a.masterKeyPriv.Key != nil {
+		info.MasterPrivKey = cp(a.masterKeyPriv.Key[:])
+		info.MasterPrivDigest = cp(a.masterKeyPriv.Parameters.Digest[:])
+	}
+	if a.masterKeyPub != nil && a.masterKeyPub.Key != nil {
+		info.MasterPubKey = cp(a.masterKeyPub.Key[:])
+	}
+	if a.cryptoKeyPriv != nil {
+		info.CryptoKeyPriv = cp(a.cryptoKeyPriv.Bytes())
+	}
+	if a.cryptoKeyPub != nil {
+		info.CryptoKeyPub = cp(a.cryptoKeyPub.Bytes())
+	}
+	if a.branchInfo != nil {
+		info.NextExternalIndex = a.branchInfo.nextExternalIndex
+		info.NextInternalIndex = a.branchInfo.nextInternalIndex
+	}
+	for i, s := range a.index {
+		info.AddressesByIndex[i] = s
+	}
+	for s, ma := range a.addrs {
+		info.AddressBranchIndex[s] = [2]uint32{ma.derivationPath.Branch, ma.derivationPath.Index}
+		if ma.privKey != nil {
+			info.AddrsWithPrivKey = append(info.AddrsWithPrivKey, s)
+			info.AddrPrivKeys = append(info.AddrPrivKeys, cp(ma.privKey.D.Bytes()))
+		}
+	}
+	return info
+}
+
+// VerifSecState returns the snapshot of every managed keystore.
+func (km *KeystoreManager) VerifSecState() []VerifSecInfo {
+	km.mu.Lock()
+	defer km.mu.Unlock()
+	ret := make([]VerifSecInfo, 0, len(km.managedKeystores))
+	for _, a := range km.managedKeystores {
+		ret = append(ret, a.verifSecInfo())
+	}
+	return ret
+}
+
+// VerifPubPassphrase returns a copy of the public passphrase the manager currently holds.
+func (km *KeystoreManager) VerifPubPassphrase() []byte {
+	km.mu.Lock()
+	defer km.mu.Unlock()
+	return append([]byte{}, km.pubPassphrase...)
+}
+
+// VerifCurrentKeystoreName returns the selected keystore ("" if none).
+func (km *KeystoreManager) VerifCurrentKeystoreName() string {
+	km.mu.Lock()
+	defer km.mu.Unlock()
+	if km.currentKeystore == nil {
+		return ""
+	}
+	return km.currentKeystore.accountName
+}
+
+// VerifKsMgrBucketMeta returns the bucket meta of the keystore manager bucket ("km").
+func (km *KeystoreManager) VerifKsMgrBucketMeta() interface{ Paths() []string } {
+	return km.ksMgrMeta
+}
